@@ -82,6 +82,14 @@ def neg_signature(txs, rep):
                         for t in txs):
                     return "negative-cost:30-day-leg-with-later-capreturn"
                 return "negative-cost:" + l["rule"] + ":capreturn-apportioned-over-lots-by-share-count"
+    for tk, (q, c) in rep["holdings"].items():
+        if c < -TOL_FINE * 1000:
+            has_cr = any(t["kind"] == "CAPRETURN" and t["ticker"] == tk for t in txs)
+            has_bnb = any(l["rule"] == "BedAndBreakfast" for d in lc.all_disposals(rep) if d["ticker"] == tk for l in d["legs"])
+            if has_cr and has_bnb:
+                return "negative-cost:holding:capreturn-sized-by-a-pre-pass-that-ignores-30-day-identification"
+            if has_cr:
+                return "negative-cost:holding:capreturn-apportioned-over-lots-by-share-count"
     return "negative-cost:holding"
 
 
@@ -226,8 +234,14 @@ def judge_cancel(var, oa, ob, cnt):
     cnt["cancel_pairs"] += 1
     if "ok" not in ob:
         msg = ob.get("err", {}).get("message", str(ob))
-        if "exceeds allowable cost" in msg:
-            cnt["cancel_pair_refused_s122(order/size dependent, not compared)"] += 1
+        days_, _, _ = hmrc.build_days(base)
+        held = position_before(days_, evs[0]["ticker"], pdate(evs[0]["date"]))
+        if "exceeds allowable cost" in msg and held <= 0:
+            cnt["cancel_pair_with_no_shares_held(return refused, not compared)"] += 1
+            return viols
+        if "exceeds allowable cost" in msg and lc.nonterminating_split([t for t in base if t["ticker"] == evs[0]["ticker"]]) \
+                and held < Fraction(1, 10 ** 3):
+            cnt["cancel_pair_on_residue_holding(not compared)"] += 1
             return viols
         viols.append({"clause": "cancelling-pair-rejected", "signature": "cancelling-pair-rejected", "detail": msg[:200]})
         return viols
@@ -409,6 +423,10 @@ def judge_oversize(var, oa, ob, cnt):
             neg = negative_costs(lc.parse_report(ob["ok"]["report"]))
             if whole_cost_of_lots_still_held is not None and net > whole_cost_of_lots_still_held + Fraction(1, 10 ** 6):
                 shape += ":beyond-whole-cost-of-lots-still-held"
+                if lc.nonterminating_split([t for t in base if t["ticker"] == tk]):
+                    # after such a split the pre-pass keeps ~1e-26 of a share on lots that are exhausted in exact
+                    # arithmetic, so their whole cost still counts (residue family F3c on top of F6a)
+                    shape += ":residue-keeps-exhausted-lots-held"
             viols.append({"clause": "oversize-return-accepted", "signature": "oversize-return-accepted" + shape,
                           "detail": f"CAPRETURN net {float(net)!r} accepted although only {float(c)!r} of expenditure remains on the "
                                     f"{float(q)!r} {tk} shares held" + (f"; negative costs: {neg[:2]}" if neg else "")})
